@@ -369,3 +369,42 @@ Theorem C05_ac3_invalid_rejected :
   zlen ac3_invalid_domain = 4544.
 Proof. exact ac3_invalid_rejected. Qed.
 Print Assumptions C05_ac3_invalid_rejected.
+
+(* ================================================================== AAC ADIF *)
+(* ISO/IEC 13818-7 adif_header() + program_config_element() written bit by bit (Model.InfoAac.build_adif) and read by
+   the mirror of AACInfo._parse_adif / ProgramConfigElement over BitReader: for ALL field values within the bit widths
+   (copyright id present or not, original/home, 23-bit bitrate, 20-bit buffer fullness, every sampling frequency index --
+   the reserved ones 13..15 report 0 --, 0..15 front/side/back elements each single or pair, 0..3 LFE, 0..7 associated
+   data, 0..15 coupling elements, the three mixdown options, 0..255 comment bytes, 1..16 programs) the reported
+   [sample_rate; channels; bitrate; 8 * raw data bytes; bitrate] are those of the first program -- for variable-rate
+   headers with any number of programs and constant-rate headers with one program. *)
+Require Import Model.InfoAac Proofs.C05_aac_bits Proofs.C05_aac.
+
+Theorem C05_aac_tables_match_spec : aac_table_diffs = [].
+Proof. exact aac_tables_match_spec. Qed.
+Print Assumptions C05_aac_tables_match_spec.
+
+Theorem C05_adif : forall p tail, valid_adif p -> Forall (fun x => 0 <= x < 256) tail ->
+  ad_bitstream_type p = 1 \/ zlen (ad_pces p) = 1 ->
+  decode_adif (build_adif p tail) = Ok (expected_adif_info p (zlen tail)).
+Proof. exact adif_decode_build. Qed.
+Print Assumptions C05_adif.
+
+(* the precondition is needed: constant rate with two programs (buffer fullness precedes every program, the code skips it once) *)
+Theorem C05_adif_cbr_multi_pce_refuted :
+  valid_adif adif_cbr2_witness /\ Forall (fun x => 0 <= x < 256) (zeros 100) /\
+  decode_adif (build_adif adif_cbr2_witness (zeros 100)) = Ok [44100; 2; 128000; 624; 128000] /\
+  expected_adif_info adif_cbr2_witness 100 = [44100; 2; 128000; 800; 128000].
+Proof. exact adif_cbr_multi_pce_refuted. Qed.
+Print Assumptions C05_adif_cbr_multi_pce_refuted.
+
+Example C05_adif_vbr_example :
+  build_adif (mkAdif None 0 0 1 128000 0 [mkPce 0 1 4 [16] [] [] [] [] [] None None None []]) [1; 2; 3] =
+    [65; 68; 73; 70; 16; 62; 128; 0; 10; 8; 0; 0; 64; 0; 1; 2; 3] /\
+  decode_adif [65; 68; 73; 70; 16; 62; 128; 0; 10; 8; 0; 0; 64; 0; 1; 2; 3] = Ok [44100; 2; 128000; 24; 128000].
+Proof. exact adif_vbr_example. Qed.
+
+Example C05_adif_truncated_rejected :
+  forallb (fun n => match decode_adif (firstn n [65; 68; 73; 70; 16; 62; 128; 0; 10; 8; 0; 0; 64; 0]) with Raise EMutagen => true | _ => false end)
+    [4; 5; 6; 7; 8; 9; 10; 11; 12; 13]%nat = true.
+Proof. exact adif_truncated_rejected. Qed.
